@@ -635,6 +635,7 @@ pub fn model_cfg(cfg: &StoreCfg, effective_format: u32) -> crate::model::ModelCf
         overhead: FeoxStore::verif_record_overhead(),
         sweeper: cfg.sweeper.is_some() && cfg.ttl,
         sees_all_calls: false,
+        judge_collateral_pins: false,
     }
 }
 
